@@ -5,19 +5,19 @@ use num_complex::Complex;
 fn same(a: f64, b: f64) -> bool { (a.is_nan() && b.is_nan()) || a.to_bits() == b.to_bits() }
 fn num(re: f64, im: f64) -> Box<Node> { Box::new(Node::Number(Complex::new(re, im))) }
 fn ok(r: Result<Complex<f64>, Box<dyn std::error::Error>>) -> Option<Complex<f64>> { match r { Ok(v) => Some(v), Err(e) => { std::mem::forget(e); None } } }
-// @obligation owners=C08,C14,C20 fn=eval_complex::ast::eval/Number
+// @obligation owners=C08,C14,C20 fn=eval_complex::ast::eval/Number exact=1
 #[kani::proof]
 fn step_number() { let (a, b): (f64, f64) = (kani::any(), kani::any());
     match ok(eval(Node::Number(Complex::new(a, b)))) { Some(v) => assert!(v.re.to_bits() == a.to_bits() && v.im.to_bits() == b.to_bits(), "leaf unchanged, bit for bit"), None => assert!(false, "never Err") } }
-// @obligation owners=C08 fn=eval_complex::ast::eval/Add
+// @obligation owners=C08 fn=eval_complex::ast::eval/Add exact=1
 #[kani::proof]
 fn step_add() { let (a, b, c, d): (f64, f64, f64, f64) = (kani::any(), kani::any(), kani::any(), kani::any());
     match ok(eval(Node::Add(num(a, b), num(c, d)))) { Some(v) => assert!(same(v.re, a + c) && same(v.im, b + d), "(a+bi)+(c+di) = (a+c)+(b+d)i"), None => assert!(false, "never Err") } }
-// @obligation owners=C08 fn=eval_complex::ast::eval/Subtract
+// @obligation owners=C08 fn=eval_complex::ast::eval/Subtract exact=1
 #[kani::proof]
 fn step_subtract() { let (a, b, c, d): (f64, f64, f64, f64) = (kani::any(), kani::any(), kani::any(), kani::any());
     match ok(eval(Node::Subtract(num(a, b), num(c, d)))) { Some(v) => assert!(same(v.re, a - c) && same(v.im, b - d), "(a+bi)-(c+di) = (a-c)+(b-d)i"), None => assert!(false, "never Err") } }
-// @obligation owners=C08,C19 fn=eval_complex::ast::eval/Negative
+// @obligation owners=C08,C19 fn=eval_complex::ast::eval/Negative exact=1
 #[kani::proof]
 fn step_negative() { let (a, b): (f64, f64) = (kani::any(), kani::any());
     match ok(eval(Node::Negative(num(a, b)))) { Some(v) => assert!(v.re.to_bits() == (a.to_bits() ^ (1u64 << 63)) && v.im.to_bits() == (b.to_bits() ^ (1u64 << 63)), "sign flip of both parts"), None => assert!(false, "never Err") } }
@@ -25,7 +25,7 @@ fn step_negative() { let (a, b): (f64, f64) = (kani::any(), kani::any());
 #[kani::proof]
 fn step_multiply_re() { let (a, b, c, d): (f64, f64, f64, f64) = (kani::any(), kani::any(), kani::any(), kani::any());
     match ok(eval(Node::Multiply(num(a, b), num(c, d)))) { Some(v) => assert!(same(v.re, a * c - b * d), "re((a+bi)(c+di)) = ac - bd"), None => assert!(false, "never Err") } }
-// @obligation owners=C08,C01 fn=eval_complex::ast::eval/Multiply+Divide
+// @obligation owners=C08,C01 fn=eval_complex::ast::eval/Multiply+Divide exact=1
 #[kani::proof]
 fn step_mul_div_total() { let (a, b, c, d): (f64, f64, f64, f64) = (kani::any(), kani::any(), kani::any(), kani::any());
     assert!(ok(eval(Node::Multiply(num(a, b), num(c, d)))).is_some() && ok(eval(Node::Divide(num(a, b), num(c, d)))).is_some(), "never Err, never a panic"); }
